@@ -11,7 +11,9 @@ import (
 // H-gitcmd / H-isfull (C13): how every git command is constructed, and the
 // refusal of shallow repositories.
 
-var vpEnvMenu = []string{"PATH=/usr/bin", "GIT_DIR=/elsewhere", "GIT_GRAFT_FILE=/tmp/grafts", "GIT_REPLACE_REF_BASE=refs/r", "HOME=/h"}
+// (GIT_CONFIG_* carry command-scope configuration, e.g. `git -c refgroup.x.include=...`: C15)
+var vpEnvMenu = []string{"PATH=/usr/bin", "GIT_DIR=/elsewhere", "GIT_GRAFT_FILE=/tmp/grafts", "GIT_REPLACE_REF_BASE=refs/r", "HOME=/h",
+	"GIT_CONFIG_PARAMETERS='refgroup.x.include=refs/x'", "GIT_CONFIG_COUNT=1", "GIT_CONFIG_GLOBAL=/h/cfg"}
 
 func VPH_gitCommand() {
 	if vp_Native() {
@@ -67,7 +69,7 @@ func VPH_gitCommand() {
 	vp_Assert(ok && v == gitDir, "the child's GIT_DIR is the repository, whatever was inherited")
 	v, ok = effective(cmd.Env, "GIT_GRAFT_FILE")
 	vp_Assert(ok && v == os.DevNull, "grafts are disabled in the child (GIT_GRAFT_FILE=/dev/null), whatever was inherited")
-	for _, key := range []string{"PATH", "HOME", "GIT_REPLACE_REF_BASE"} {
+	for _, key := range []string{"PATH", "HOME", "GIT_REPLACE_REF_BASE", "GIT_CONFIG_PARAMETERS", "GIT_CONFIG_COUNT", "GIT_CONFIG_GLOBAL"} {
 		want, had := effective(env, key)
 		got, has := effective(cmd.Env, key)
 		vp_Assert(had == has && want == got, "other inherited variables reach the child unchanged: "+key)
